@@ -25,6 +25,7 @@ struct CallResult {
 	bool isStream = false;
 	std::vector<uint8_t> bytes;
 	std::string what;
+	std::vector<size_t> sameName; // stream obtained BY NAME: every listed member carrying that name (ignoring case)
 };
 
 struct Target {
@@ -181,7 +182,7 @@ struct ArchiveDamage : Family {
 			else if (c < 28) { op = mkline("op", "kind"); op.set("i", idx); }
 			else if (c < 38) { op = mkline("op", "index"); op.set("q", r.below(100)).set("case", r.below(6)); }
 			else if (c < 44) { op = mkline("op", "contains"); op.set("q", r.below(100)).set("case", r.below(6)); }
-			else if (c < 74) { op = mkline("op", "stream"); op.set("i", idx).set("rseed", hex64(r.next())); }
+			else if (c < 74) { op = mkline("op", "stream"); op.set("i", idx).set("rseed", hex64(r.next())); if (r.chance(1, 3)) op.set("byname", 1).set("case", r.below(6)); }
 			else if (c < 92) { op = mkline("op", "extract"); op.set("i", idx); }
 			else op = mkline("op", "extractall");
 			// failing allocation inside this call, on the long-lived object only: whatever the outcome, the object must stay usable
@@ -214,7 +215,13 @@ struct ArchiveDamage : Family {
 			r.isStream = true;
 			size_t i = idxOf(op);
 			r.out = callLib(plan, [&] {
-				auto s = ar.OpenStream(i);
+				std::unique_ptr<Stream::BidirectionalReader> s;
+				if (op.u("byname", 0) && i < count && count <= 4096) {
+					// the stream is asked for by the name the object itself lists for member i
+					std::string nm = ar.GetName(i);
+					for (size_t j = 0; j < count; ++j) if (ref::nameEqualNoCase(ar.GetName(j), nm)) r.sameName.push_back(j);
+					s = ar.OpenStream(caseVariant(nm, op.u("case", 0)));
+				} else s = ar.OpenStream(i);
 				uint64_t len = s->Length();
 				if (len > (1u << 20)) throw std::runtime_error("stream longer than any file in this world");
 				r.bytes.resize(static_cast<size_t>(len));
@@ -342,8 +349,11 @@ struct ArchiveDamage : Family {
 					{ Armed a; count = A->GetCount(); }
 					if (count > 100000) ctx.count("probe.huge_member_count");
 					bool aFailedBefore = false;
-					for (size_t oi = 0; oi < plan.ops.size(); ++oi) {
-						const Line& op = plan.ops[oi];
+					// on the undamaged archive every member is, after the planned calls, also streamed by the name listed for it
+					std::vector<Line> ops = plan.ops;
+					if (!changed && count <= 64) for (size_t mi = 0; mi < count; ++mi) { Line so = mkline("op", "stream"); so.set("i", "~" + std::to_string(mi)).set("rseed", hex64(mix64(plan.seed, mi))).set("byname", 1).set("case", mi % 6); ops.push_back(so); }
+					for (size_t oi = 0; oi < ops.size(); ++oi) {
+						const Line& op = ops[oi];
 						ctx.setOp(oi);
 						if (vi == 0) ctx.schedNote(op.verb);
 						uint64_t allocFail = op.u("allocfail", 0);
@@ -381,8 +391,14 @@ struct ArchiveDamage : Family {
 						if (ra.isStream && ra.out == OkOut) {
 							std::string tok = op.get("i", "~0");
 							size_t i = tok[0] == '~' ? static_cast<size_t>(parseU64(tok.substr(1)) % (count + 2)) : static_cast<size_t>(parseU64(tok));
+							std::vector<size_t> cands = ra.sameName.empty() ? std::vector<size_t>{i} : ra.sameName;
+							if (!ra.sameName.empty()) ctx.count("probe.stream_by_listed_name");
+							bool anyOk = false, anyLocated = false, anyInside = false;
 							uint64_t start = 0;
 							std::vector<uint64_t> lens;
+							for (size_t ci = 0; ci < cands.size() && !anyOk; ++ci) {
+							i = cands[ci];
+							start = 0; lens.clear();
 							bool located = false;
 							if (t.kind == "vol" && bytes.size() >= 32) {
 								uint64_t S = ref::getU32(bytes, 20) & 0x7fffffffu;
@@ -395,12 +411,14 @@ struct ArchiveDamage : Family {
 								uint64_t e = 60 + 16ull * i;
 								if (e + 16 <= bytes.size()) { start = ref::getU32(bytes, static_cast<size_t>(e + 8)); lens.push_back(ref::getU32(bytes, static_cast<size_t>(e + 12))); located = true; }
 							}
-							if (!located) ctx.fail("C05.extent", op.str() + ": a stream was delivered for member " + std::to_string(i) + " although the file holds no index entry / block header for it");
-							bool okExtent = false;
-							for (uint64_t L : lens) if (L == ra.bytes.size() && start + L <= bytes.size() && memcmp(bytes.data() + start, ra.bytes.data(), static_cast<size_t>(L)) == 0) okExtent = true;
+							if (located) anyLocated = true;
+							for (uint64_t L : lens) if (L == ra.bytes.size() && start + L <= bytes.size() && memcmp(bytes.data() + start, ra.bytes.data(), static_cast<size_t>(L)) == 0) anyOk = true;
+							for (uint64_t L : lens) if (start + L <= bytes.size()) anyInside = true;
+							}
+							if (!anyLocated) ctx.fail("C05.extent", op.str() + ": a stream was delivered for member " + std::to_string(i) + " although the file holds no index entry / block header for it");
+							bool okExtent = anyOk;
 							if (!okExtent) {
-								bool inside = false;
-								for (uint64_t L : lens) if (start + L <= bytes.size()) inside = true;
+								bool inside = anyInside;
 								ctx.fail(inside ? "C05.extent" : "C05.no-short-stream", op.str() + ": stream of member " + std::to_string(i) + " has " + std::to_string(ra.bytes.size()) + " bytes which are not the file bytes at the recorded extent (start " + std::to_string(start) + ", recorded length " + (lens.empty() ? "?" : std::to_string(lens[0])) + ", file size " + std::to_string(bytes.size()) + ")");
 							}
 							ctx.count("probe.extent_checked");
